@@ -269,6 +269,16 @@ impl Space {
                 lead: root_text.to_string(),
                 start_is_base: false,
             },
+            Source::Glob { expr, .. } if up_prefix(expr).is_some() => {
+                // a base above the world: candidates are the world root and everything beneath it,
+                // their text led by the components between that base and the world root
+                let (k, _) = up_prefix(expr).unwrap();
+                Space {
+                    start: String::new(),
+                    lead: last_components(root_text, k).join("/"),
+                    start_is_base: false,
+                }
+            },
             Source::Glob { expr, .. } => {
                 let mut start = w.base.clone();
                 let mut run: Vec<&str> = Vec::new();
